@@ -2,6 +2,7 @@ import StoneVerif.Model.IrCheck
 import StoneVerif.Lemmas.IrCheck
 import StoneVerif.Lemmas.IrCheckNoCrash
 import StoneVerif.Lemmas.IrCheckExamplesEnc
+import StoneVerif.Lemmas.IrCheckExamplesNull
 /-! Property theorems for C10 (accepted defaults and computed examples are valid for the generated classes).
 
 `Model/IrCheck.lean` is the compile-time side (`_create_struct_field`, `_populate_field_defaults`,
@@ -194,6 +195,7 @@ example : fieldDefault exE exC [] (.float "Float64" none none) (.int 1) = .ok (.
     fieldDefault exE exC [] (.alias "ns.F" none (.float "Float64" none none)) (.int 1) = .ok (.int 1) ∧
     fieldDefault exE exC [] (.float "Float64" none none) .null = invalid "not a valid real number" ∧
     fieldDefault exE exC [] (.float "Float64" none none) (.str "1.5") = invalid "not a valid real number" ∧
+    -- (`exE.fltOfInt` answers for 0 and 1 only: 7 stands for an integer `float()` overflows on)
     fieldDefault exE exC [] (.float "Float64" none none) (.int 7) = invalid "int too large to convert to float" ∧
     fieldDefault exE exC [] (.float "Float64" none (some 0)) (.int 1) = invalid "greater than max_value" ∧
     fieldDefault exE exC [] (.nullable (.int "Int32" none none)) (.int 1) =
@@ -317,15 +319,17 @@ example : getField exEnv (.struct "ns.S" []) "f" = .ok (.union "ns.Color" "red" 
 
 /-! ## 6. computed examples decode strictly and encode back
 
-Full statement (FALSE today, witnesses in the suites: D12 pattern prefix, D13 Bytes that is not base64,
-non-canonical Timestamp / Bytes text, `true` for an integer, an integer that is not a float, a struct member
-of a union reached through an alias, an embedded catch-all tag):
+Full statement (FALSE today, witnesses in corpus/C10 and listed in KNOWN_FINDINGS: D12 pattern prefix, D13 Bytes
+that is not base64, non-canonical Timestamp / Bytes text, `true` for a number, an integer that is not a float, a
+struct member of a union reached through an alias; an example that explicitly writes a catch-all tag is, like the
+implicit example of a catch-all tag, not judged):
 
     theorem example_roundtrip (h : compile fs = .ok api) (hex : ex ∈ examplesOf api T) (hx : ¬ ex.isCatchAllImplicit) :
         ∃ v, jsonCompatObjDecode E env [] true (tyOf T) ex.value = .ok v ∧
              jsonCompatObjEncode E env [] false (tyOf T) v = .ok ex.value        -- as JSON documents
 
-Proved: the reference-free ("flat") part over scalar members. Not modelled (covered by the direct oracle of
+Proved: the reference-free ("flat") part over scalar members, and `tag = null` for a nullable struct member of a
+union. Not modelled (covered by the direct oracle of
 harness/suites/defaults_examples.py on every label of every generated spec): references to other examples
 (so every struct- or union-typed member), lists and maps, Timestamp / Bytes, aliases as member types, structs
 with enumerated subtypes, members omitted for a caller class. -/
@@ -391,6 +395,31 @@ theorem example_union_roundtrip_partial (E : Ext) (C : CExt) (us : List CUnion) 
       jsonCompatObjDecode E env [] true (.union {} cu.cls) doc = .ok u ∧
       jsonCompatObjEncode E env [] false (.union {} cu.cls) u = .ok doc :=
   example_union_roundtrip_encode_partial E C us env cu ud tag v t hwf hchain hpat hud henv hpub hnd ht hty hca htne hexact hadd
+
+/-- A union example `tag = null` for a member of nullable struct type (`t S2?`) — a TypeError in
+`Union._compute_example` until repair 00ddb10 — is accepted without further hypotheses, its document is the tag
+alone, and that document decodes strictly and encodes back to itself. -/
+theorem example_union_null_struct_roundtrip (E : Ext) (C : CExt) (us : List CUnion) (env : Env) (cu : CUnion) (ud : UnionDef)
+    (tag : String) (t : CTag) (c : String)
+    (hwf : envWF env = true) (hchain : envWFX env = true)
+    (hud : unionDefOfC cu = some ud) (henv : env.union? cu.cls = some ud)
+    (hpub : ∀ t ∈ cu.allTags, t.omitted = none) (hnd : (cu.allTags.map (·.name)).Nodup)
+    (ht : cu.allTags.find? (·.name == tag) = some t)
+    (hty : t.ty = .nullable (.struct c false))
+    (hca : some tag ≠ cu.catchAll) (htne : tag ≠ ".tag") :
+    ∃ doc u, unionExample E C us cu [(tag, .lit .null)] = .ok (some doc) ∧ doc = .obj [(".tag", .str tag)] ∧
+      jsonCompatObjDecode E env [] true (.union {} cu.cls) doc = .ok u ∧
+      jsonCompatObjEncode E env [] false (.union {} cu.cls) u = .ok doc :=
+  example_union_null_struct_roundtrip_encode E C us env cu ud tag t c hwf hchain hud henv hpub hnd ht hty hca htne
+
+/-- non-vacuity: `struct Pt { x Int32 }`, `union Shape { dot Pt?; other* }`, example `dot = null`, in the generated tables -/
+example : ∃ doc u, unionExample rtE rtC [] rtShape [("dot", .lit .null)] = .ok (some doc) ∧ doc = .obj [(".tag", .str "dot")] ∧
+    jsonCompatObjDecode rtE rtNullEnv [] true (.union {} rtShape.cls) doc = .ok u ∧
+    jsonCompatObjEncode rtE rtNullEnv [] false (.union {} rtShape.cls) u = .ok doc := by
+  obtain ⟨ud, hud, henv⟩ := envOfC_union rtNullEnv_eq (by decide) (cu := rtShape) (by simp [rtNullApi])
+  exact example_union_null_struct_roundtrip rtE rtC [] rtNullEnv rtShape ud "dot"
+    { name := "dot", ty := .nullable (.struct "ns.Pt" false) } "ns.Pt" rtNullEnv_wf.2.1 rtNullEnv_wf.2.2 hud henv
+    (by decide) (by decide) rfl rfl (by decide) (by decide)
 
 /-- The class tables the theorems above speak of are the ones `envOfC` generates for the API. -/
 theorem example_env_generated {api : CApi} {env : Env} (h : envOfC api = some env) :
